@@ -1,4 +1,5 @@
 import UF.Compose2.ShortcutMask
+import UF.Compose2.ParsePattern
 import UF.Props.C05
 import UF.Props.C03
 /-
@@ -133,6 +134,39 @@ theorem c05_full_regex (ext : Ext) (r : NetRule) (q : Request) (parts : List Byt
       rw [hparse] at ht'
       cases ht'
       exact litsCovered_refl r0
+
+/-- C05 from the rule TEXT for mask rules — no oracle and no hypothesis about the rule record: whatever
+    `NewNetworkRule` accepts with a pattern that is not a `/regex/` matches the same requests with and
+    without its shortcut test (`loadShortcut` stored what `findShortcut` finds in the stored pattern:
+    `parseNetRule_pattern`). -/
+theorem c05_text_full (px : E.ParseExt) (t : Bytes) (id : Int) (r : NetRule) (q : Request)
+    (h : E.parseNetRule px t id = .ok r)
+    (hre : UF.isRegexPattern r.pattern = false)
+    (hlower : q.urlLower = toLower q.url)
+    (hhost : q.isHostnameRequest = true → hasSub q.url q.hostname = true) :
+    r.matches (withModelPat px.ext) q = ({ r with shortcut := [] } : NetRule).matches (withModelPat px.ext) q := by
+  obtain ⟨_, _, _, _, _, _, hsc⟩ := parseNetRule_pattern h
+  rcases hsc with ⟨hre', _⟩ | ⟨_, w, hw, hs⟩
+  · rw [hre] at hre'; cases hre'
+  · exact (c05_full px.ext r q w hre hw hs hlower hhost).2
+
+/-- The same for `/regex/` rules, for every shortcut oracle of the repaired shape (any candidates,
+    filtered against the required literals of the parse). -/
+theorem c05_text_full_regex (px : E.ParseExt) (t : Bytes) (id : Int) (r : NetRule) (q : Request)
+    (h : E.parseNetRule px t id = .ok r)
+    (hre : UF.isRegexPattern r.pattern = true)
+    (horacle : ∃ parts, px.regexpShortcut r.pattern =
+      findRegexpShortcut parts (parseCore ((r.pattern.drop 1).dropLast)))
+    (hci : r.isEnabled Facts.OptionMatchCase = true →
+      hasPrefix ((r.pattern.drop 1).dropLast) ciPrefix = false)
+    (hlower : q.urlLower = toLower q.url)
+    (hhost : q.isHostnameRequest = true → hasSub q.url q.hostname = true) :
+    r.matches (withModelPat px.ext) q = ({ r with shortcut := [] } : NetRule).matches (withModelPat px.ext) q := by
+  obtain ⟨_, _, _, _, _, _, hsc⟩ := parseNetRule_pattern h
+  obtain ⟨parts, hparts⟩ := horacle
+  rcases hsc with ⟨_, hs⟩ | ⟨hre', _⟩
+  · exact c05_full_regex px.ext r q parts hre (by rw [hs, hparts]) hci hlower hhost
+  · rw [hre] at hre'; cases hre'
 
 /-! ### Non-vacuity -/
 
